@@ -201,19 +201,25 @@ Theorem C12_import_sound : forall st, conf_attributed st -> ext_unique st ->
 Proof. exact import_sound_by_external. Qed.
 Print Assumptions C12_import_sound.
 
-Theorem C12_import_sound_on_tree : forall st,
-  (if genesis_confirm_owner_by_external then conf_attributed st /\ ext_unique st else bridgers_resolve_to_key st) ->
+(* this tree (C12-1 repaired, /repo 3bd6d6b) looks the owner up by external address: pinned *)
+Theorem C12_tree_genesis_owner_by_external : genesis_confirm_owner_by_external = true.
+Proof. exact tree_genesis_owner_by_external. Qed.
+Print Assumptions C12_tree_genesis_owner_by_external.
+
+Theorem C12_import_sound_on_tree : forall st, conf_attributed st -> ext_unique st ->
   forall e, In e (import_conf genesis_confirm_owner_by_external st) -> In e (st_conf st).
 Proof. exact import_sound_on_tree. Qed.
 Print Assumptions C12_import_sound_on_tree.
 
-(* finding C12-1: without the guard the by-bridger import files a confirm under another oracle; by external address it does not *)
-Theorem C12_import_misattributes_after_bridger_reuse :
+(* the pre-fix behaviour, stated about the explicit by-bridger variant (import_conf false), evaluated on the witness:
+   without the guard of C12_import_sound_by_bridger oracle 11's confirm is filed under oracle 12; by external address
+   (import_conf true) the same state is unchanged *)
+Theorem C12_import_by_bridger_refuted :
   import_conf false ex_reuse_state = [(((KOracleSet, 0, 3), 12), ex_msg)] /\ m_external ex_msg = 31 /\
   assoc Z.eqb 12 (st_oracles ex_reuse_state) = Some {| o_bridger := 21; o_external := 32 |} /\
   import_conf true ex_reuse_state = st_conf ex_reuse_state.
-Proof. exact import_misattributes_after_bridger_reuse. Qed.
-Print Assumptions C12_import_misattributes_after_bridger_reuse.
+Proof. exact import_by_bridger_refuted. Qed.
+Print Assumptions C12_import_by_bridger_refuted.
 
 (* ---- who signs the transaction ---- *)
 
